@@ -93,6 +93,31 @@ class Unit:
     def on_path_start(self, vc, I):
         pass
 
+    # ---- @contextmanager functions: verified as enter ; (body of the caller: arbitrary, may raise) ; exit
+    def enter_post(self, vc, a, o, val):
+        return ()
+
+    def during(self, vc, I, a, o, val):
+        """What the caller's `with` body may do between enter and exit (default: nothing)."""
+
+    def drive_ctxmgr(self, vc, I, a, o, cm):
+        val = I.cm_enter(cm)                       # PyRaise out of the enter part is an exceptional exit of the unit
+        for name, fml in self.enter_post(vc, a, o, val):
+            vc.check('enter:' + name, fml)
+        a.entered = val
+        self.during(vc, I, a, o, val)
+        how = vc.choose(2, label='with_body')      # 0: body completes, 1: body raises
+        a.body_raised = (how == 1)
+        if how == 0:
+            I.cm_exit(cm, None)
+            return val
+        e = ExcVal('RuntimeError', (), origin='with-body of the caller')
+        e.from_body = True
+        if I.cm_exit(cm, e):
+            vc.check('exit:exception_of_the_body_not_swallowed', False)
+            return val
+        raise PyRaise(e)
+
     # ---- callee mode
     def bind_actual(self, I, f, args, kwargs):
         vars_ = I.bind(f.node.args, f.env, args, kwargs, f.qualname)
@@ -103,7 +128,7 @@ class Unit:
         caller = I.call_stack[-1] if I.call_stack else (I.unit.fn if I.unit else '?')
         a = self.bind_actual(I, f, args, kwargs)
         vc.callees_used.add(self.name)
-        for name, fml in self.pre(vc, a):
+        for name, fml in getattr(self, 'pre_callee', self.pre)(vc, a):
             vc.check(f'{vc.unit}:pre[{self.fn}]:{name}', fml)
         o = self.snapshot(vc, a)
         a.o = o
